@@ -19,17 +19,23 @@ AllPlain(ents) == \A i \in DOMAIN ents : IsPlain(ents[i])
 SwapApplies(ents, opts) ==
     ~opts.preserveM /\ \E i \in DOMAIN ents : ents[i].k = "tu" /\ IsSome(ents[i].trip) /\ OrElse(Val(ents[i].trip).route, 0) = RouteM
 
+DirOpen(msg) == \E i \in DOMAIN msg.ents :
+                    /\ msg.ents[i].k \in {"tu", "vp"} /\ IsSome(msg.ents[i].trip) /\ HasNyct(Val(msg.ents[i].trip))
+                    /\ OrElse(Val(Val(msg.ents[i].trip).nyct).dir, 0) \notin {1, 3}
 MsgStep(e) ==
     LET c == e.case msg == e.msg opts == e.opts r == e.res
         ents2 == Pre(msg, opts).ents
-        cf == ConflictFree(ents2)
+        (* C16 fixes the direction for NORTH and SOUTH only: with EAST, WEST or no direction in an NYCT descriptor *)
+        (* the trip's key is not determined by the property, and the clauses that compare keys do not apply        *)
+        dirOpen == DirOpen(msg)
+        cf == ConflictFree(ents2) /\ ~dirOpen
         ok == e.err = ""
     IN
     /\ Check("C16.parses", c, l, ok /\ e.plainErr = "")
     /\ Check("C16.trips-derived-fields-and-stale-filter", c, l, (ok /\ cf) => C02_Trips(ents2, r))
     /\ Check("C16.vehicles", c, l, (ok /\ cf) => (C02_IdVehicles(ents2, r) /\ C02_IdlessVehicles(ents2, r)))
     /\ Check("C16.assigned-trip-linked-to-train", c, l, (ok /\ cf) => C04_Links(ents2, r))
-    /\ Check("C16.every-assigned-trip-has-its-train", c, l, ok => C16_AssignedTripsHaveTheirTrain(msg, opts, r))
+    /\ Check("C16.every-assigned-trip-has-its-train", c, l, (ok /\ ~dirOpen) => C16_AssignedTripsHaveTheirTrain(msg, opts, r))
     /\ Check("C16.alerts-and-header-untouched", c, l, (ok /\ cf) => (C02_Alerts(ents2, r) /\ C02_Header(msg, r)))
     /\ Check("C16.unique-sorted", c, l, ok => (C07_UniqueTrips(r) /\ C07_TripsSorted(r)))
     (* the same clauses under the names of the general properties they instantiate for a parse with an extension *)
@@ -47,7 +53,7 @@ OriginStep(e) ==
 Step ==
     /\ l <= Len(Trace)
     /\ IF Trace[l].kind = "msg" THEN MsgStep(Trace[l]) ELSE OriginStep(Trace[l])
-    /\ nCF' = nCF + (IF Trace[l].kind = "msg" /\ Trace[l].err = "" /\ ConflictFree(Pre(Trace[l].msg, Trace[l].opts).ents) THEN 1 ELSE 0)
+    /\ nCF' = nCF + (IF Trace[l].kind = "msg" /\ Trace[l].err = "" /\ ConflictFree(Pre(Trace[l].msg, Trace[l].opts).ents) /\ ~DirOpen(Trace[l].msg) THEN 1 ELSE 0)
     /\ l' = l + 1
     /\ (l = Len(Trace) => PrintT(<<"COUNT", "conflict_free_after_prepass", nCF'>>))
 Spec == Init /\ [][Step]_<<l, nCF>>
